@@ -395,7 +395,7 @@ fn c06_segment_step_s2_r1_p2_tight() {
     kani::cover!(o.all_acked && o.truncated, "ack and truncated data in one segment");
 }
 }
-// @verif id=C06,C16 tier=quick role=segment_step timeout=600 desc=send=1,recv=0,payload=0(pure-ack/fin)
+// @verif id=C06,C16,C13 tier=quick role=segment_step timeout=600 desc=send=1,recv=0,payload=0(pure-ack/fin:every-close-state-reaches-Closed-once-both-FINs-are-through)
 crate::verif_proof! { unwind = 6;
 fn c06_segment_step_s1_r0_p0() {
     let o = segment_step::<1, 0, 0>(2);
